@@ -333,6 +333,10 @@ def edwards_params(pkg):
     return dict(FrPath=base + "/fr", FrSuffix=c + "/fr", EdPath="github.com/consensys/gnark-crypto/" + pkg)
 
 
+# stream decoder for slices of G1 points (G2 slices: the same harness runs for tens of minutes with solver timeouts: not registered)
+C07_JOBS += [Job("ecc/" + c, ["C07/pointcodec.go.tmpl", "C07/stream.go.tmpl"], params=codec_params(c, "G1Affine"), jobs=4,
+                 label="ecc/%s:streamG1" % c, only="H_G1Affine_Stream", tier="quick" if c in ("bn254", "grumpkin", "stark-curve") else "thorough")
+             for c in PAIRING_CURVES + ["grumpkin", "stark-curve"]]
 C07_JOBS += [Job(pkg, ["C07/edwards.go.tmpl"], params=edwards_params(pkg), jobs=4) for pkg in EDWARDS]
 
 # G2 over E4 (bls24-*): four base-field coordinates per tower element make the generic-flag harnesses run for tens of
@@ -349,15 +353,19 @@ PROPS["C07"] = dict(
                "(< p), valid flag patterns and all-zero infinity payloads; an accepted point satisfies the curve equation and the subgroup "
                "predicate when requested; the consumed length is one of the two sizes and within the buffer; every accepted string "
                "re-encodes (Bytes / RawBytes) to the identical bytes, except the all-zero raw string for infinity; short buffers are "
-               "rejected without panic; every subgroup point round-trips through both encodings.",
+               "rejected without panic; every subgroup point round-trips through both encodings. Stream decoder for slices of G1 "
+               "points (bn254, grumpkin, stark-curve quick; the other curves thorough): a length-prefixed stream of 2 compressed or "
+               "raw items read through a short-read reader decodes exactly when every item decodes on its own, to the same points, "
+               "without keeping stale destination data, with BytesRead = stream length; every truncation is an error. Twisted "
+               "Edwards points (8 packages): accepted strings have a canonical Y and re-encode to themselves.",
     level_note="Base-field elements are interpreted by their canonical integer value: byte conversions, comparisons with the modulus, "
                "lexicographic sign selection and negation are exact; products are uninterpreted modulo associativity, commutativity and "
                "sign; square roots obey their contract (a root of a square squares back to it, non-squares are rejected); subgroup "
                "membership is an opaque predicate implying the curve equation. Counterexamples are replayed against the real decoder.",
     bounds="flag patterns: all 4 (bn254-style) or 8 (bls-style); buffer lengths: 0, 1, compressed-1, compressed, raw-1, raw, raw+1; "
            "G2 over E4 (bls24-315/317): only invalid-flag, infinity and short-buffer patterns",
-    outside="streaming Encoder/Decoder (type switch, slices of points with parallel Y recovery, vectors, byte counters), "
-            "twisted-Edwards point codecs, GT/E12 codecs, kzg/pedersen/domain/polynomial serialisation; curve equation for compressed G2 "
+    outside="streaming Encoder and the other Decoder cases (single values, slices of G2 points, vectors, nested vectors, integers), "
+            "slices longer than 2, goroutine schedules of the parallel Y recovery, GT/E12 codecs, kzg/pedersen/domain/polynomial serialisation; curve equation for compressed G2 "
             "strings over an extension (follows from the square-root contract, not replayable in this interpretation); the subgroup "
             "test itself (C02/C03 territory)",
     assumptions=["Element.Sqrt / E2.Sqrt / E4.Sqrt / Legendre satisfy their contracts", "IsInSubGroup is a function of the coordinates that implies the curve equation and excludes order-2 points",
@@ -464,9 +472,10 @@ PROPS["C11"] = dict(
 
 
 def pairing_params(c):
-    # FinalExponentiation(x, y) = FinalExponentiation(x*y) goes through on bn254 only (elsewhere the merged easy-part branch
-    # makes the two sides syntactically different and the solver does not finish)
-    return dict(curve_params(c), LinesLen="len(LoopCounter)" if c == "bn254" else "len(LoopCounter) - 1", FinalExp=1 if c == "bn254" else 0)
+    # FinalExponentiation(x, y, ...) = FinalExponentiation(x*y*...) (template block FinalExp) is not registered: its obligations are
+    # discharged on bn254 but the reachability witness of the harness is solver-flaky (unknown on some runs), elsewhere the
+    # merged easy-part branch makes the two sides syntactically different and the solver does not finish
+    return dict(curve_params(c), LinesLen="len(LoopCounter)" if c == "bn254" else "len(LoopCounter) - 1", FinalExp=0)
 
 
 VEC_FIELDS = [("ecc/%s/fr" % c, "%s/fr" % c) for c in PAIRING_CURVES] + [("ecc/%s/fp" % c, "%s/fp" % c) for c in PAIRING_CURVES] + \
@@ -501,7 +510,7 @@ PROPS["C05"] = dict(
     jobs=[Job("ecc/" + c, ["C05/pairing_glue.go.tmpl"], params=pairing_params(c), jobs=4, goarch="arm64") for c in PAIRING_CURVES],
     level_text="Proof (all coordinates) of the glue of the pairing API on the 7 pairing curves: a pair containing a point at infinity, in "
                "G1 or G2 and at any position, contributes the identity to MillerLoop (the loop on the remaining pairs performs "
-               "the same field operations; only-infinity inputs give one); on bn254 FinalExponentiation(x, y) = FinalExponentiation(x*y); size mismatches and empty inputs are errors "
+               "the same field operations; only-infinity inputs give one); size mismatches (either argument longer) and empty inputs are errors "
                "for MillerLoop, Pair, PairingCheck, MillerLoopFixedQ, PairFixedQ, PairingCheckFixedQ.",
     level_note="Base-field elements are interpreted by canonical values with uninterpreted products; each claim is an equality between "
                "two executions of the real Miller loop / final exponentiation (66-190 iterations, whole tower arithmetic executed) that "
@@ -509,6 +518,6 @@ PROPS["C05"] = dict(
                "value computed: bilinearity, non-degeneracy and the equality of projective and fixed-argument (affine lines) variants "
                "after the final exponentiation are mathematical facts about the formulas that this technique does not reach.",
     bounds="k <= 2 pairs; arbitrary coordinates (points are not required to be on the curve: the claims hold for all inputs)",
-    outside="bilinearity, non-degeneracy, exact order r, equality of MillerLoop and MillerLoopFixedQ after final exponentiation, Pair = FinalExponentiation o MillerLoop (two symbolic final exponentiations do not finish), multi-pairing with k > 2",
+    outside="bilinearity, non-degeneracy, exact order r, equality of MillerLoop and MillerLoopFixedQ after final exponentiation, Pair = FinalExponentiation o MillerLoop and FinalExponentiation(x, y) = FinalExponentiation(x*y) (symbolic final exponentiations: solver does not finish reliably), infinity in the fixed-argument loop, multi-pairing with k > 2",
     assumptions=["uninterpreted field products (AC, sign, zero)", "sequential execution"],
 )
